@@ -235,6 +235,8 @@ impl<'a> FnTr<'a> {
                 Err(format!("unknown type {}", name))
             }
             Type::Reference(r) => self.ty(&r.elem),
+            // builder V: `impl RngCore` in argument position is the unit's abstract generator type `RNG`
+            Type::ImplTrait(it) if self.reg.structs.contains_key("RNG") && it.bounds.iter().any(|b| matches!(b, TypeParamBound::Trait(tb) if tb.path.segments.last().map(|s| s.ident == "RngCore").unwrap_or(false))) => Ok(Ty::Named("RNG".into())),
             Type::Paren(p) => self.ty(&p.elem),
             Type::Tuple(t) => {
                 if t.elems.is_empty() {
@@ -431,6 +433,32 @@ impl<'a> FnTr<'a> {
                         (None, Pat::Ident(pi)) if open_int_expr(&init.expr) => self.infer_from_uses(&pi.ident.to_string(), &stmts[i + 1..], env),
                         _ => expect,
                     };
+                    // builder V: `let PAT = if .. / match ..;` whose branches change `&mut` state (a call on `self`, a
+                    // draw from `rng`): every branch yields its value TOGETHER with the state it leaves (phi on the
+                    // `&mut` parameters), as the statement-level `if` / `match` do.  Only in units with an abstract generator (`RNG`):
+                    // the units generated before keep their text (none of them changes state inside such a branch).
+                    if !self.muts.is_empty() && self.reg.structs.contains_key("RNG") && init.diverge.is_none() && matches!(&*init.expr, Expr::If(_) | Expr::Match(_)) && !contains_return(&init.expr) {
+                        let mut vars = assigned_roots(&init.expr, &self.muts);
+                        vars.retain(|v| env.contains_key(v) && self.muts.contains(v));
+                        vars.sort();
+                        vars.dedup();
+                        if !vars.is_empty() {
+                            let mut env_v = env.clone();
+                            let mut pre: Stmts = vec![];
+                            let (tail, ty) = self.tail_expr_ty_value(&init.expr, &mut env_v, &mut pre, expect.clone())?;
+                            let mut seq = Seq { stmts: pre, tail };
+                            let vs = vars.clone();
+                            wrap_exits(&mut seq, &mut self.counter, &|v: &str| exit_term(v, false, &vs));
+                            let p = match &l.pat {
+                                Pat::Type(pt) => &*pt.pat,
+                                p => p,
+                            };
+                            let name = self.pat(p, &ty, env)?;
+                            st.extend(seq.stmts);
+                            st.push((exit_term(&name, false, &vars), Rhs::Br(Box::new(seq.tail))));
+                            continue;
+                        }
+                    }
                     let (term, ty) = self.ex(&init.expr, env, &mut st, expect.clone())?;
                     let ty = match (&ty, &expect) {
                         (Ty::IntLit, Some(e)) => e.clone(),
@@ -467,6 +495,11 @@ impl<'a> FnTr<'a> {
                     return Err(format!("unsupported macro statement {}", name));
                 }
                 Stmt::Expr(e, semi) => {
+                    // builder V: `loop { .. return v; .. }` as the value of the block
+                    if let (Expr::Loop(l), true, true) = (e, last, !self.muts.is_empty()) {
+                        let tail = self.loop_fuel_loop(l, &stmts[..i], env, &mut st)?;
+                        return Ok(Seq { stmts: st, tail });
+                    }
                     if last && semi.is_none() && !(self.ret == Ty::Unit && !self.muts.is_empty()) {
                         let prev = TAIL_POS.with(|t| t.replace(self.muts.is_empty() && !self.reg.io.borrow().mode));
                         let tail = self.tail_expr(e, env, &mut st);
@@ -529,6 +562,15 @@ impl<'a> FnTr<'a> {
                         Expr::Tuple(t) if t.elems.is_empty() => {}
                         // builder R: `while let Some(x) = it.next() { body }` over an iterator the unit models as the
                         // list of the items it yields (`continue`, `it.peek()` allowed in the body)
+                        // builder V: `while cond { body }` that redraws from a generator: a loop on a fuel (`Rt.loopM`)
+                        Expr::While(w) if !self.muts.is_empty() && !matches!(&*w.cond, Expr::Let(_)) => {
+                            self.while_fuel_loop(w, &stmts[..i], env, &mut st)?;
+                        }
+                        // builder V: `loop { .. return v; .. }` as the last statement: a loop on a fuel (`Rt.loopM`)
+                        Expr::Loop(l) if !self.muts.is_empty() && last => {
+                            let tail = self.loop_fuel_loop(l, &stmts[..i], env, &mut st)?;
+                            return Ok(Seq { stmts: st, tail });
+                        }
                         Expr::While(w) if !self.muts.is_empty() => {
                             self.while_let_loop(w, &stmts[..i], env, &mut st)?;
                         }
@@ -971,6 +1013,102 @@ impl<'a> FnTr<'a> {
         cands
     }
 
+    /// builder V: `while cond { body }` (no `break` / `return` / nested loop in the body): one step evaluates the
+    /// condition and, when it holds, the body; `Rt.loopM LoopFuel.fuel` iterates it (`none` when the fuel is used up)
+    fn while_fuel_loop(&mut self, w: &ExprWhile, before: &[Stmt], env: &mut Env, st: &mut Stmts) -> Res<()> {
+        struct Bad(Option<String>);
+        impl<'ast> syn::visit::Visit<'ast> for Bad {
+            fn visit_expr(&mut self, e: &'ast Expr) {
+                match e {
+                    Expr::Continue(_) | Expr::Break(_) | Expr::Return(_) | Expr::While(_) | Expr::Loop(_) => self.0 = Some("continue/break/return/nested loop inside a `while` body".into()),
+                    _ => syn::visit::visit_expr(self, e),
+                }
+            }
+        }
+        let mut bad = Bad(None);
+        syn::visit::Visit::visit_block(&mut bad, &w.body);
+        if let Some(b) = bad.0 {
+            return Err(format!("while: {}", b));
+        }
+        let carried = self.loop_carried(&w.body, before, env, "");
+        if carried.is_empty() {
+            return Err("while: the body assigns nothing".into());
+        }
+        let tup = tuple_of(&carried);
+        let mut bseq = self.loop_body(&w.body.stmts, env, &carried, &[])?;
+        wrap_exits(&mut bseq, &mut self.counter, &|v: &str| format!("(Sum.inl {})", v));
+        let mut env_c = env.clone();
+        let mut cst: Stmts = vec![];
+        let (ct, cty) = self.ex(&w.cond, &mut env_c, &mut cst, Some(Ty::Bool))?;
+        if cty != Ty::Bool {
+            return Err("while: the condition is not bool".into());
+        }
+        let step = Seq { stmts: cst, tail: Tail::If(ct, Box::new(bseq), Box::new(Seq { stmts: vec![], tail: Tail::Val(format!("(Sum.inr {})", tup)) })) };
+        let mut body = String::new();
+        if step.fallible() {
+            render_m(&step, 3, &mut body);
+        } else {
+            body.push_str("some (");
+            render_p(&step, 3, &mut body);
+            body.push(')');
+        }
+        st.push((tup.clone(), Rhs::Act(format!("Rt.loopM LoopFuel.fuel (fun {} => {}) <| {}", tup, body, tup))));
+        Ok(())
+    }
+
+    /// builder V: `loop { body }` in tail position whose only exits are `return v`: one step is the body — a
+    /// `return` ends the loop with the function's result (value and `&mut` parameters), the end of the body
+    /// continues with the loop-carried variables; `Rt.loopM LoopFuel.fuel` iterates it
+    fn loop_fuel_loop(&mut self, l: &ExprLoop, before: &[Stmt], env: &mut Env, st: &mut Stmts) -> Res<Tail> {
+        struct Bad(Option<String>);
+        impl<'ast> syn::visit::Visit<'ast> for Bad {
+            fn visit_expr(&mut self, e: &'ast Expr) {
+                match e {
+                    Expr::Continue(_) | Expr::Break(_) | Expr::While(_) | Expr::Loop(_) => self.0 = Some("continue/break/nested loop inside a `loop` body".into()),
+                    _ => syn::visit::visit_expr(self, e),
+                }
+            }
+        }
+        let mut bad = Bad(None);
+        syn::visit::Visit::visit_block(&mut bad, &l.body);
+        if let Some(b) = bad.0 {
+            return Err(format!("loop: {}", b));
+        }
+        if self.ret == Ty::Unit {
+            return Err("loop: the function returns no value".into());
+        }
+        let carried = self.loop_carried(&l.body, before, env, "");
+        if carried.is_empty() {
+            return Err("loop: the body assigns nothing".into());
+        }
+        let tup = tuple_of(&carried);
+        // the end of the body is marked by the variable `loop_continue` (of the function's return type)
+        let mut stmts: Vec<Stmt> = l.body.stmts.clone();
+        if let Some(Stmt::Expr(e, None)) = stmts.last().cloned() {
+            let k = stmts.len() - 1;
+            stmts[k] = Stmt::Expr(e, Some(Default::default()));
+        }
+        stmts.push(Stmt::Expr(parse_quote!(loop_continue), None));
+        let mut env_b = env.clone();
+        env_b.insert("loop_continue".into(), self.ret.clone());
+        let mut seq = self.block_tail(&stmts, &mut env_b)?;
+        let muts: Vec<String> = self.muts.iter().filter(|m| !m.is_empty()).cloned().collect();
+        let tup2 = tup.clone();
+        wrap_exits(&mut seq, &mut self.counter, &|v: &str| if v == "loop_continue" { format!("(Sum.inl {})", tup2) } else { format!("(Sum.inr {})", exit_term(v, false, &muts)) });
+        let mut body = String::new();
+        if seq.fallible() {
+            render_m(&seq, 3, &mut body);
+        } else {
+            body.push_str("some (");
+            render_p(&seq, 3, &mut body);
+            body.push(')');
+        }
+        let v = self.fresh();
+        let res = exit_term(&v, false, &muts);
+        st.push((res, Rhs::Act(format!("Rt.loopM LoopFuel.fuel (fun {} => {}) <| {}", tup, body, tup))));
+        Ok(Tail::Val(v))
+    }
+
     fn while_let_loop(&mut self, w: &ExprWhile, before: &[Stmt], env: &mut Env, st: &mut Stmts) -> Res<()> {
         // `let Some(x) = it.next()`
         let (x, it) = match &*w.cond {
@@ -1141,6 +1279,12 @@ impl<'a> FnTr<'a> {
             body.push(')');
         }
         let tup = tuple_of(&carried);
+        // builder V: in deeply nested `do` blocks an argument after the multi-line lambda falls left of the enclosing
+        // block's column (Lean's `checkColGt`); `<|` does not care.  The units generated before keep their text.
+        if self.reg.structs.contains_key("RNG") {
+            st.push((tup.clone(), Rhs::Act(format!("Rt.forRangeM {} {} (fun {} {} => {}) <| {}", paren(&a), paren(&b), iv, tup, body, tup))));
+            return Ok(());
+        }
         st.push((tup.clone(), Rhs::Act(format!("Rt.forRangeM {} {} (fun {} {} => {}) {}", paren(&a), paren(&b), iv, tup, body, tup))));
         Ok(())
     }
@@ -1211,6 +1355,12 @@ impl<'a> FnTr<'a> {
             let t = match &e {
                 Expr::Index(ix) => match self.place(&ix.expr, env) {
                     Ok((_, _, Ty::Arr(el))) => Some(*el),
+                    _ => None,
+                },
+                // builder V: combined with a cast `(e as usize) & x`
+                Expr::Cast(c) => self.ty(&c.ty).ok(),
+                Expr::Paren(pp) if matches!(&*pp.expr, Expr::Cast(_)) => match &*pp.expr {
+                    Expr::Cast(c) => self.ty(&c.ty).ok(),
                     _ => None,
                 },
                 other => self.place(other, env).ok().map(|(_, _, t)| t),
@@ -1841,6 +1991,11 @@ impl<'a> FnTr<'a> {
                 st.extend(pseq?);
             }
             match &last[0] {
+                // builder V: `loop { .. return v; .. }` as the value of a block in the function's tail position
+                Stmt::Expr(Expr::Loop(l), _) if !self.muts.is_empty() && self.ret == saved => {
+                    let t = self.loop_fuel_loop(l, prefix, env, &mut st)?;
+                    Ok((Seq { stmts: std::mem::take(&mut st), tail: t }, saved.clone()))
+                }
                 Stmt::Expr(e, None) => {
                     let (t, ty) = self.tail_expr_ty(e, env, &mut st, expect.clone())?;
                     Ok((Seq { stmts: std::mem::take(&mut st), tail: t }, ty))
@@ -1871,7 +2026,7 @@ impl<'a> FnTr<'a> {
         // is not the value of the block)
         let mut owned: Vec<Stmt> = stmts.to_vec();
         if let Some(Stmt::Expr(e, None)) = owned.last().cloned() {
-            if matches!(e, Expr::If(_) | Expr::Match(_) | Expr::Block(_)) {
+            if matches!(e, Expr::If(_) | Expr::Match(_) | Expr::Block(_) | Expr::While(_) | Expr::ForLoop(_)) {
                 let k = owned.len() - 1;
                 owned[k] = Stmt::Expr(e, Some(Default::default()));
             }
@@ -2998,6 +3153,43 @@ impl<'a> FnTr<'a> {
                 return Ok((format!("decide ({})", parts.join(" ∧ ")), Ty::Bool));
             }
         }
+        // builder V: `(a..b).any(|i| body)` on a half-open integer range; the body may panic (`Rt.rangeAnyM`)
+        if name == "any" && m.args.len() == 1 {
+            let mut recv = &*m.receiver;
+            while let Expr::Paren(p) = recv {
+                recv = &p.expr;
+            }
+            if let (Expr::Range(r), Expr::Closure(cl)) = (recv, &m.args[0]) {
+                if let (Some(lo), Some(hi), RangeLimits::HalfOpen(_), 1) = (&r.start, &r.end, &r.limits, cl.inputs.len()) {
+                    let (b, tb) = self.ex(hi, env, st, None)?;
+                    let (a, ta) = self.ex(lo, env, st, if matches!(tb, Ty::Int(_)) { Some(tb.clone()) } else { None })?;
+                    let ity = match (&ta, &tb) {
+                        (_, Ty::Int(_)) => tb.clone(),
+                        (Ty::Int(_), _) => ta.clone(),
+                        // untyped literal bounds: the closure parameter is an index (`usize`)
+                        _ => Ty::Int("usize"),
+                    };
+                    let mut env_c = env.clone();
+                    let pn = self.pat(&cl.inputs[0], &ity, &mut env_c)?;
+                    let mut cst = vec![];
+                    let (ct, cty) = self.ex(&cl.body, &mut env_c, &mut cst, Some(Ty::Bool))?;
+                    if cty != Ty::Bool {
+                        return Err("range any: closure body is not bool".into());
+                    }
+                    let seq = Seq { stmts: cst, tail: Tail::Val(ct) };
+                    let mut body = String::new();
+                    if seq.fallible() {
+                        render_m(&seq, 2, &mut body);
+                    } else {
+                        body.push_str("some (");
+                        render_p(&seq, 2, &mut body);
+                        body.push(')');
+                    }
+                    let t = self.act(st, format!("Rt.rangeAnyM {} {} (fun {} => {})", paren(&a), paren(&b), pn, body));
+                    return Ok((t, Ty::Bool));
+                }
+            }
+        }
         // builder N: `(a..=b).all(|c| body)` on an integer range; the body may panic (`Rt.rangeAllM`)
         if name == "all" && m.args.len() == 1 {
             let mut recv = &*m.receiver;
@@ -3116,7 +3308,7 @@ impl<'a> FnTr<'a> {
                 "is_some" | "is_ok" => Ok((format!("{}.isSome", paren(&r)), Ty::Bool)),
                 // builder N: `Option<T>` → `Option<&T>`: the same value in the model
                 // (`ok`: `Result<T, E>` → `Option<T>`; a `Result` already is an `Option` here)
-                "as_ref" | "as_mut" | "copied" | "cloned" | "ok" => Ok((r, tr.clone())),
+                "as_ref" | "as_mut" | "copied" | "cloned" | "clone" | "ok" => Ok((r, tr.clone())),
                 "is_none" => Ok((format!("{}.isNone", paren(&r)), Ty::Bool)),
                 "unwrap_or" => {
                     let (a, _) = self.ex(&m.args[0], env, st, Some((**inner).clone()))?;
@@ -3269,6 +3461,21 @@ impl<'a> FnTr<'a> {
                     }
                     Ok((format!("(List.find? (fun {} => {}) {})", pn, ct, paren(&r)), Ty::Opt(el.clone())))
                 }
+                // builder V: `.iter().rposition(|x| pure-bool)`: index of the last element that satisfies it
+                "rposition" => {
+                    let cl = match m.args.first() {
+                        Some(Expr::Closure(cl)) if cl.inputs.len() == 1 => cl,
+                        _ => return Err("rposition: argument is not a one-parameter closure".into()),
+                    };
+                    let mut env_c = env.clone();
+                    let pn = self.pat(&cl.inputs[0], el, &mut env_c)?;
+                    let mut cst = vec![];
+                    let (ct, cty) = self.ex(&cl.body, &mut env_c, &mut cst, Some(Ty::Bool))?;
+                    if !cst.is_empty() || cty != Ty::Bool {
+                        return Err("rposition: closure body must be a pure bool expression".into());
+                    }
+                    Ok((format!("(Rt.rposition (fun {} => {}) {})", pn, ct, paren(&r)), Ty::Opt(Box::new(Ty::Int("usize")))))
+                }
                 _ => Err(format!("unsupported slice method {}", name)),
             },
             // builder L: heapless::Vec<T, CAP> as a list with a capacity; mutators write the receiver place back
@@ -3302,6 +3509,11 @@ impl<'a> FnTr<'a> {
                 }
                 _ => Err(format!("unsupported heapless::Vec method {}", name)),
             },
+            // builder V: `b.then_some(v)` (the argument is evaluated, with its checks, before the test — as in Rust)
+            Ty::Bool if name == "then_some" && m.args.len() == 1 => {
+                let (a, ta) = self.ex(&m.args[0], env, st, None)?;
+                Ok((format!("(if {} then some {} else none)", r, paren(&a)), Ty::Opt(Box::new(ta))))
+            }
             Ty::Bool => Err(format!("unsupported bool method {}", name)),
             _ => Err(format!("unsupported method {} on {:?}", name, tr)),
         }
@@ -3313,6 +3525,12 @@ fn open_int_expr(e: &Expr) -> bool {
     match e {
         Expr::Lit(ExprLit { lit: Lit::Int(i), .. }) => i.suffix().is_empty(),
         Expr::Paren(p) => open_int_expr(&p.expr),
+        // builder V: `if c { 0b11111 } else if d { 0b1111 } else { 0b111 }`
+        Expr::If(ei) => {
+            let blk = |b: &Block| matches!(b.stmts.as_slice(), [Stmt::Expr(e, None)] if open_int_expr(e));
+            blk(&ei.then_branch) && matches!(&ei.else_branch, Some((_, eb)) if open_int_expr(eb))
+        }
+        Expr::Block(b) => matches!(b.block.stmts.as_slice(), [Stmt::Expr(e, None)] if open_int_expr(e)),
         Expr::Unary(u) => matches!(u.op, UnOp::Not(_) | UnOp::Neg(_)) && open_int_expr(&u.expr),
         Expr::Binary(b) => match b.op {
             BinOp::Shl(_) | BinOp::Shr(_) => open_int_expr(&b.left),
